@@ -875,3 +875,37 @@ def _rebind(ctx: Ctx, sh: Shared, holder: dict[str, Any], lists: list[list[tuple
                 new.append((kind, fn))
         out.append(new)
     return out
+
+
+# ---------------------------------------------------------------------------
+# check definition
+# ---------------------------------------------------------------------------
+def _plans(tier: str) -> list[Any]:
+    from btcsim.core.runner import Plan  # noqa: PLC0415
+
+    return [
+        Plan("state", {"part": "nonce"}, share=1.0, chunk=40, label="state/nonce"),
+        Plan("state", {"part": "signer"}, share=1.0, chunk=40, label="state/signer"),
+        Plan("state", {"part": "wallet"}, share=1.5, chunk=20, label="state/wallet"),
+        Plan("state", {"part": "indep"}, share=2.0, chunk=10, label="state/indep"),
+        Plan("state", {"part": "threads", "opcode": tier == "thorough"}, share=4.0, chunk=10, label="state/threads"),
+    ]
+
+
+CHECKS = {
+    "C20": {
+        "level": "exploration",
+        "plans": _plans,
+        "rule": (
+            "one evaluation = one seeded run: a generated history of calls on a nonce / signer / wallet object "
+            "checked against a reference state machine after every step, or a list of pure calls re-evaluated "
+            "under cache clears/shrinks and backend flips, or 2-4 simulated threads under a seeded (PCT / uniform / "
+            "staggered) interleaving. distinct = distinct hash of the (actor, event, fault) sequence incl. the thread "
+            "switch trace; non-trivial = at least one fault/perturbation fired or >= 2 context switches."
+        ),
+        "assumptions": [
+            "pre-emption only at first-visit line (thorough: bytecode) boundaries of btclib frames; C calls are atomic (GIL)",
+            "races between two threads on one secnonce bytearray or one wallet object are not asserted (not stated by the property)",
+        ],
+    },
+}
